@@ -12,7 +12,7 @@ class SelectorWorld:
     props = ('C18',)
     levels = {'C18': 'exploration'}
     chunk = 600
-    budget = {'quick': dict(runs=40000, wall=40.0), 'thorough': dict(runs=2000000, wall=900.0)}
+    budget = {'quick': dict(runs=40000, wall=180.0), 'thorough': dict(runs=2000000, wall=900.0)}
     time_unit = 'n/a: logical steps only'
     state_measure = 'distinct (style, number of objects, last mutator) triples after each step'
     components = {'real': ['param.parameters.Selector/ListSelector/ListProxy', 'param._utils._named_objs',
